@@ -262,3 +262,39 @@ func devRenamed(pool *sup.Pool, args []string) int {
 }
 
 func init() { devCmds["renamed"] = devRenamed }
+
+// devSeq: re-run the sequence of a C19 witness file n times.
+func devSeq(pool *sup.Pool, args []string) int {
+	raw, _ := os.ReadFile(args[0])
+	var w struct {
+		Programs []string `json:"programs"`
+		Sequence []string `json:"sequence"`
+	}
+	json.Unmarshal(raw, &w)
+	var jobs []sup.Job
+	for rep := 0; rep < 40; rep++ {
+		j := sup.Job{Kind: "seq"}
+		for i, p := range w.Programs {
+			mode := "async"
+			if strings.Contains(w.Sequence[i], "(sync)") {
+				mode = "sync"
+			} else if strings.Contains(w.Sequence[i], "(np)") {
+				mode = "np"
+			}
+			j.Seq = append(j.Seq, sup.Job{Kind: "run", Text: p, Mode: mode, Seed: uint64(rep), Profile: "gosched", Procs: 4, EventBudget: 3000000})
+		}
+		jobs = append(jobs, j)
+	}
+	pool.Recycle = 1
+	died := 0
+	for _, o := range pool.Run(jobs, nil) {
+		if o.Died() {
+			died++
+			fmt.Println("died:", normDeath(o.Deaths[0]))
+		}
+	}
+	fmt.Println("sequences died:", died, "of", len(jobs))
+	return 0
+}
+
+func init() { devCmds["seq"] = devSeq }
